@@ -101,6 +101,9 @@ ALL_FEATURES = [
                             # (arrays, structs): they become data objects of the function
     "type_fields",          # comptime globals holding a struct with a `type` member, compared with
                             # the types themselves at runtime
+    "generic_alias_param",  # a generic function whose comptime parameter is typed by a type alias
+                            # global (MyI :: i64;), called from a comptime global
+    "generic_enum_units",   # generic enum types with two payload-less variants, joined in an `if`
     "indirect_refs",        # variants may name a definition of another file *through a third file*:
                             # imp1.imp2.name
 ]
@@ -1333,6 +1336,28 @@ class _Gen:
                   ("u8", lambda k: str(k + 1), "u8.(a %% 50)"),
                   ("i32", lambda k: str(70000 + k), "i32.(a %% 50)"),
                   ("f32", lambda k: "%d.25" % k, "f32.(a %% 50)")]
+        if r.random() < 0.5:
+            # one caller that instantiates the function twice, with different T
+            (t1, kv1, xv1), (t2, kv2, xv2) = r.sample(shapes, 2)
+            cname = self.fresh("cq")
+            cit = Item(cname, "fn")
+            cit.is_function = True
+            cit.deps.add(name)
+            k1, k2 = r.randint(1, 9), r.randint(1, 9)
+
+            def render2(ref, cname=cname, t1=t1, t2=t2, a1=kv1(k1), a2=kv2(k2),
+                        x1=xv1.replace("%%", "%"), x2=xv2.replace("%%", "%")):
+                def as_int(t, e):
+                    return "i64.(%s * 4.0)" % e if t.startswith("f") else "i64.(%s)" % e
+                return ("%s :: (a: i64) -> i64 {\n    p := %s;\n    q := %s;\n    (p + q) %% 997\n}" % (
+                    cname, as_int(t1, "%s(%s, %s, %s)" % (ref(name), t1, a1, x1)),
+                    as_int(t2, "%s(%s, %s, %s)" % (ref(name), t2, a2, x2))))
+
+            cit.render = render2
+            arg = r.randint(0, 40)
+            cit.uses = (lambda ref, tmp, cname=cname, arg=arg: ["emit(%s(%d));" % (ref(cname), arg)])
+            self.p.add(cit)
+            self.int_fns.append(cname)
         for t, kv, xv in r.sample(shapes, r.randint(1, 3)):
             cname = self.fresh("cp")
             cit = Item(cname, "fn")
@@ -1996,6 +2021,60 @@ class _Gen:
         if first:
             add_wrapper()
 
+    def mk_generic_alias_param(self):
+        r = self.rnd
+        t = r.choice(["i64", "i64", "i32", "u16"])
+        al = self.fresh("MyI")
+        ait = Item(al, "prim_alias")
+        ait.render = lambda ref: "%s :: %s;" % (al, t)
+        self.p.add(ait)
+        fn = self.fresh("rp")
+        fit = Item(fn, "generic")
+        fit.is_function = True
+        fit.deps.add(al)
+        fit.render = lambda ref: "%s :: (comptime v: %s, n: i64) -> i64 {\n    n + i64.(v)\n}" % (fn, ref(al))
+        self.p.add(fit)
+        name = self.fresh("k")
+        it = Item(name, "comptime")
+        it.deps.add(fn)
+        v, n = r.randint(1, 90), r.randint(1, 9)
+        it.render = lambda ref: "%s :: comptime { %s(%d, %d) };" % (name, ref(fn), v, n)
+        it.uses = lambda ref, tmp: ["emit(%s);" % ref(name)]
+        self.p.add(it)
+        self.int_consts.append(name)
+
+    def mk_generic_enum_units(self):
+        r = self.rnd
+        if not getattr(self, "tri_fn", None):
+            tri = self.fresh("Tri")
+            it = Item(tri, "type_fn")
+            it.is_function = True
+            it.render = lambda ref: "%s :: (comptime T: type) -> type {\n    enum { A: T, B, C }\n}" % tri
+            self.p.add(it)
+            self.tri_fn = tri
+            self.tri_insts = []
+            for t in r.sample(["i64", "bool", "u8", "i32"], 2):
+                name = self.fresh("TT")
+                iit = Item(name, "type_inst")
+                iit.deps.add(tri)
+                iit.render = (lambda ref, name=name, t=t: "%s :: comptime %s(%s);" % (name, ref(tri), t))
+                self.p.add(iit)
+                self.tri_insts.append(name)
+            return
+        inst = r.choice(self.tri_insts)
+        name = self.fresh("pu")
+        it = Item(name, "fn")
+        it.is_function = True
+        it.deps.add(inst)
+        it.render = lambda ref: (
+            "%s :: (a: i64) -> i64 {\n    v : %s = if a %% 2 == 0 { %s.B } else { %s.C };\n"
+            "    switch x in v {\n        .A => 1,\n        .B => 2,\n        .C => 3,\n    }\n}"
+            % (name, ref(inst), ref(inst), ref(inst)))
+        a1 = r.randint(0, 9)
+        it.uses = lambda ref, tmp: ["emit(%s(%d));" % (ref(name), a1), "emit(%s(%d));" % (ref(name), a1 + 1)]
+        self.p.add(it)
+        self.int_fns.append(name)
+
     def build(self):
         self.add_prelude()
         r = self.rnd
@@ -2085,6 +2164,10 @@ class _Gen:
             menu.append(("local_ct_agg", self.mk_local_ct_agg, 2))
         if "type_fields" in f and ("structs" in f or "distinct" in f):
             menu.append(("type_field", self.mk_type_field, 2))
+        if "generic_alias_param" in f:
+            menu.append(("generic_alias_param", self.mk_generic_alias_param, 1))
+        if "generic_enum_units" in f:
+            menu.append(("generic_enum_units", self.mk_generic_enum_units, 2))
         if "untyped_consts" in f:
             menu.append(("untyped_const", self.mk_untyped_const, 2))
         if "const_arrays" in f:
